@@ -1,10 +1,7 @@
 import Gallia.Lib.Proto
 import Gallia.Model.Lines
+import Gallia.Model.LinesExec
 open Gallia Gallia.Proto Gallia.Lines
-
-structure St where
-  buf : Bytes := []
-  eof : Bool := false
 
 /-- handler used on both sides of the server-loop correspondence: stateful (request counter),
     suppresses the reply when the first byte is a multiple of 4 -/
@@ -13,23 +10,66 @@ def testHandler (n : Nat) (m : Bytes) : Nat × Option Bytes :=
   | [] => (n + 1, some [UInt8.ofNat (n % 256)])
   | b :: _ => if b.toNat % 4 == 0 then (n + 1, none) else (n + 1, some (m.reverse ++ [UInt8.ofNat (n % 256)]))
 
+/-- the same handler behind the REAL `UDSServerTransport.handle_request`: the empty request raises (IndexError in
+    `respond`), a request starting with 0xEE raises (scripted), first byte a multiple of 4 -> no reply -/
+def testHandlerX (n : Nat) (m : Bytes) : Nat × HRes :=
+  match m with
+  | [] => (n + 1, .raised)
+  | b :: _ =>
+    if b == 0xEE then (n + 1, .raised)
+    else if b.toNat % 4 == 0 then (n + 1, .silent)
+    else (n + 1, .reply (m.reverse ++ [UInt8.ofNat (n % 256)]))
+
+structure St where
+  c : Client := {}
+  s : Srv Nat := { st := 0 }
+
 def showRes : ReadRes → String
   | .msg m => s!"msg {hexOrDash m}"
   | .eos => "eos"
   | .pending => "pending"
   | .bad => "bad"
 
+def showEnd : SrvEnd → String
+  | .waiting => "waiting"
+  | .eofClean => "eof"
+  | .eofTail => "eof-tail"
+  | .undecodable => "undecodable"
+  | .handlerRaised => "raised"
+
+def showObs : Obs → String
+  | .ok => "ok"
+  | .res r => showRes r
+  | .wrote n => s!"wrote {n}"
+  | .closed f => s!"closed {if f then 1 else 0}"
+
+def sizesOf (s : String) : List Nat := ((parseHex s).getD []).map (·.toNat)
+
 def step (s : St) (line : String) : St × String :=
   match words line with
   | ["reset"] => ({}, "ok")
   | ["feed", h] => match parseHex h with
-    | some b => ({ s with buf := s.buf ++ b }, "ok")
+    | some b => ({ s with c := (cstep s.c (.feed b)).1 }, "ok")
     | none => (s, "bad-op")
-  | ["eof"] => ({ s with eof := true }, "ok")
+  | ["eof"] => ({ s with c := (cstep s.c .eof).1 }, "ok")
   | ["read"] =>
-    let (r, rest) := readLine s.buf s.eof
-    ({ s with buf := rest }, showRes r)
-  | ["buf"] => (s, hexOrDash s.buf)
+    let (c, o) := cstep s.c .read
+    ({ s with c := c }, showObs o)
+  | ["write", h] => match parseHex h with
+    | some b =>
+      let (c, o) := cstep s.c (.write b)
+      ({ s with c := c }, s!"{showObs o} {hexOrDash (c.out.drop s.c.out.length)}")
+    | none => (s, "bad-op")
+  | ["request", h] => match parseHex h with
+    | some b =>
+      let (c, o) := cstep s.c (.request b)
+      ({ s with c := c }, s!"{hexOrDash (c.out.drop s.c.out.length)} {showObs o}")
+    | none => (s, "bad-op")
+  | ["close"] =>
+    let (c, o) := cstep s.c .close
+    ({ s with c := c }, showObs o)
+  | ["out"] => (s, hexOrDash s.c.out)
+  | ["buf"] => (s, hexOrDash s.c.buf)
   | ["enc", h] => match parseHex h with
     | some b => (s, hexOrDash (enc b))
     | none => (s, "bad-op")
@@ -37,6 +77,17 @@ def step (s : St) (line : String) : St × String :=
     | some b =>
       let (n, out, err, left) := serve testHandler (b.length + 1) 0 b
       (s, s!"{hexOrDash out} {if err then 1 else 0} {hexOrDash left} {n}")
+    | none => (s, "bad-op")
+  | ["sfeed", h] => match parseHex h with
+    | some b => ({ s with s := srvFeed testHandlerX s.s b }, "ok")
+    | none => (s, "bad-op")
+  | ["seof"] => ({ s with s := srvEof testHandlerX s.s }, "ok")
+  | ["sstate"] => (s, s!"{hexOrDash s.s.out} {showEnd s.s.fin} {hexOrDash s.s.buf} {s.s.st}")
+  | ["xchg", k1, k2, ms] =>
+    match (ms.splitOn ",").mapM parseHex with
+    | some msgs =>
+      let obs := exchange testHandlerX 0 msgs (cutBy (sizesOf k1)) (cutBy (sizesOf k2)) (msgs.length + 1)
+      (s, ";".intercalate (obs.map showObs))
     | none => (s, "bad-op")
   | _ => (s, "bad-op")
 
